@@ -642,6 +642,7 @@ fn replay(out: &mut Out, lhs: &str) {
     });
     // verdict lines carry their configuration: re-run that world (identity order, the recorded permutation, or the recorded drop)
     if a[0].starts_with("mp_") && a.len() >= 3 { if let Some(cfg) = Cfg::parse(a[2]) {
+        if a[0].starts_with("mp_ewvp") { hk::clear_entropy_override(); let mut seen = HashSet::new(); ewvp_world(out, &cfg, &mut seen); return; }
         let mut plan = plan_identity(cfg.parties);
         for tok in a.iter().skip(3) {
             if let Some(k) = tok.strip_prefix("perm") { if let Ok(k) = k.parse::<u64>() { plan = plan_nth(cfg.parties, k); } }
@@ -660,6 +661,313 @@ fn replay(out: &mut Out, lhs: &str) {
     out.raw(&format!("{} => {}", lhs, res));
 }
 
+// ---------------------------------------------------------------------------------------------------------------------------------
+// Participant::element_wise_vector_product (party 0 = aggregator ("cloud"), parties 1..n-1 = input parties; the library's own test
+// multiplies the vectors of parties 1..n-1 and ignores the vector handed in by party 0)
+//
+// Lines:
+//  * `prog <result ciphertext under the summed key> pred expected => Decryptor(summed key)`        (exact-integer decryption in Lean;
+//     expected = negacyclic ring product mod t of the batch encodings of the input parties' vectors)
+//  * `prog <same ciphertext> pred-3 expected => collective DecryptionProtocol plaintext`, `prog <re-encrypted under an outside key> ...`
+//  * verdicts `mp_ewvp_*` (all inputs on the line; replay re-runs the world of the configuration):
+//      slots  — for EVERY schedule the decrypted result batch-decodes to the slot-wise product mod t (zero beyond the shortest vector)
+//      order  — every schedule yields the same decrypted plaintext
+//      hold   — after step 2 every input party holds (re-sends) exactly the ciphertext the aggregator computed
+//      tape   — afterwards the parties' common tapes are still in the same state and a fresh collective public key agrees
+//    schedule = order in which the parties create their protocol objects (= order of their encryptions) x interleaving of the
+//    step-1 sends / deliveries (a message is delivered after it was sent, otherwise any order) x the same for step 2.
+const EW_KINDS: [&str; 11] = ["zeros", "ones", "tm1", "alt", "ramp", "rand", "len1", "partial", "onezero", "boundary", "empty"];
+
+/// all interleavings of the events (send i, deliver i), i = 1..=m, in which every message is sent before it is delivered
+fn interleavings(m: usize) -> Vec<Vec<(usize, bool)>> {
+    fn go(m: usize, st: &mut Vec<u8>, cur: &mut Vec<(usize, bool)>, out: &mut Vec<Vec<(usize, bool)>>) {
+        if cur.len() == 2 * m { out.push(cur.clone()); return; }
+        for i in 1..=m { if st[i] < 2 { cur.push((i, st[i] == 1)); st[i] += 1; go(m, st, cur, out); st[i] -= 1; cur.pop(); } }
+    }
+    let mut out = vec![]; go(m, &mut vec![0u8; m + 1], &mut vec![], &mut out); out
+}
+fn sched_str(ev: &[(usize, bool)]) -> String { ev.iter().map(|&(i, d)| format!("{}{}", if d { "R" } else { "S" }, i)).collect::<Vec<_>>().join(".") }
+
+fn ew_vectors(r: &mut Rng, kind: usize, cnt: usize, n: usize, t: u64) -> Vec<Vec<u64>> {
+    (0..cnt).map(|i| -> Vec<u64> { match kind {
+        0 => vec![0; n],
+        1 => vec![1; n],
+        2 => vec![t - 1; n],
+        3 => (0..n).map(|j| if (i + j) % 2 == 0 { t - 1 } else { t / 2 + (i as u64 % 2) }).collect(),
+        4 => (0..n).map(|j| ((j as u64 + 1) * (i as u64 + 1)) % t).collect(),
+        5 => (0..n).map(|_| r.below(t)).collect(),
+        6 => vec![1 + r.below(t - 1)],
+        7 => { let len = 1 + (n / 2 + 3 * i + r.below(3) as usize) % (n - 1); (0..len).map(|_| 1 + r.below(t - 1)).collect() }
+        8 => if i == cnt - 1 { vec![0; n] } else { (0..n).map(|_| r.below(t)).collect() },
+        9 => (0..n).map(|_| *r.pick(&[0, 1, 2, t - 2, t - 1, t / 2, (t + 1) / 2])).collect(),
+        _ => if i == 1 { vec![] } else { (0..n).map(|_| r.below(t)).collect() },
+    } }).collect()
+}
+
+/// one run of the protocol under a schedule; returns the aggregator's result and whether every input party ends up holding it
+fn ew_run(parties: &mut [Participant], ctx: &std::sync::Arc<HeContext>, pk: &PublicKey, rlk: &RelinKeys, xs: &[Vec<u64>],
+          create: &[usize], s1: &[(usize, bool)], s2: &[(usize, bool)]) -> (Ciphertext, bool) {
+    let cnt = parties.len();
+    let mut refs: Vec<Option<&mut Participant>> = parties.iter_mut().map(Some).collect();
+    let mut slots: Vec<Option<ElementWiseVectorProductProtocol>> = (0..cnt).map(|_| None).collect();
+    for &i in create { let p = refs[i].take().unwrap(); slots[i] = Some(p.element_wise_vector_product(ctx.clone(), pk.clone(), &xs[i])); }
+    let mut protos: Vec<ElementWiseVectorProductProtocol> = slots.into_iter().map(|p| p.unwrap()).collect();
+    let mut msgs: Vec<Vec<u8>> = vec![vec![]; cnt];
+    for &(i, deliver) in s1 {
+        if !deliver { protos[i].send_step1(&mut msgs[i]).unwrap(); }
+        else { let m = msgs[i].clone(); protos[0].receive_step1(i, &m).unwrap(); }
+    }
+    let y = protos[0].step2(rlk.clone());
+    let mut msgs2: Vec<Vec<u8>> = vec![vec![]; cnt];
+    for &(i, deliver) in s2 {
+        if !deliver { protos[0].send_step2(&mut msgs2[i]).unwrap(); }
+        else { let m = msgs2[i].clone(); protos[i].receive_step2(&m).unwrap(); }
+    }
+    // what a party holds after step 2 is observable only through send_step2
+    let mut m0 = vec![]; protos[0].send_step2(&mut m0).unwrap();
+    let mut held = true;
+    for i in 1..cnt { let mut mi = vec![]; protos[i].send_step2(&mut mi).unwrap(); if mi != m0 { held = false; } }
+    match Ciphertext::deserialize(ctx, &mut m0.as_slice()) {
+        Ok(c) => if c.data() != y.data() || c.parms_id() != y.parms_id() || c.size() != y.size() || c.is_ntt_form() != y.is_ntt_form() { held = false; },
+        Err(_) => held = false,
+    }
+    (y, held)
+}
+
+fn ew_cfg(r: &mut Rng, scheme: SchemeType, parties: usize, k: usize) -> Option<Cfg> {
+    let lg = r.range(3, 5) as usize; let n = 1usize << lg;
+    // four parties = two consecutive products without modulus switching: large data primes only (otherwise BGV leaves no budget to claim anything)
+    let pool: &[usize] = if parties >= 4 { &[55, 59] } else { &[45, 50, 55, 59] };
+    let mut bits: Vec<usize> = (0..k - 1).map(|_| *r.pick(pool)).collect(); bits.push(60);
+    let qs = pick_primes(r, n, &bits)?;
+    let b = r.range(lg as u64 + 2, 12) as usize;
+    let t = std::panic::catch_unwind(|| heathcliff::util::get_primes(2 * n as u64, b, 1)[0].value()).ok()?;
+    if qs.iter().any(|&q| gcd(q, t) != 1) { return None; }
+    Some(Cfg { scheme, n, qs, t, parties, wseed: r.next() >> 16 })
+}
+
+pub fn ewvp_world(out: &mut Out, cfg: &Cfg, seen: &mut HashSet<String>) -> Option<(usize, usize, usize)> {
+    arm(cfg.wseed);
+    let res = catch_unwind(AssertUnwindSafe(|| ewvp_inner(out, cfg, seen)));
+    hk::clear_entropy_override();
+    match res { Ok(x) => x, Err(_) => {
+        let m = crate::util::LAST_PANIC.with(|p| p.borrow().clone());
+        out.raw(&format!("!FAIL mp_ewvp_panic ewvp {} :: the protocol world panicked on legal input: {} # ewvp-panic", cfg.id(), m.replace('\n', " ")));
+        None } }
+}
+
+fn ewvp_inner(out: &mut Out, cfg: &Cfg, seen: &mut HashSet<String>) -> Option<(usize, usize, usize)> {
+    use rand::RngCore;
+    let mut r = Rng::new(cfg.wseed.wrapping_mul(131) + 9);
+    let s = make(cfg.scheme, cfg.n, &cfg.qs, cfg.t, true, None)?;
+    let (n, t, cnt) = (cfg.n, s.t, cfg.parties);
+    let ctx = s.ctx.clone();
+    if cfg.scheme == SchemeType::CKKS || cnt < 2 || !ctx.using_keyswitching() || !ctx.first_context_data().unwrap().qualifiers().using_batching { return None; }
+    let bfv = cfg.scheme == SchemeType::BFV;
+    let key_qs: Vec<u64> = ctx.key_context_data().unwrap().parms().coeff_modulus().iter().map(|m| m.value()).collect();
+    let first_pid = *ctx.first_parms_id();
+    let lqs = s.level_qs(&first_pid);
+    let level_bits: f64 = lqs.iter().map(|&q| log2f(q as f64)).sum();
+    let (ln, lp, lt) = (log2f(n as f64), log2f(cnt as f64), log2f(t as f64));
+    // conservative predicted budgets of the result (same estimates as the worlds above; one more product for four parties)
+    let pred_fresh = (level_bits - lt - ln - lp - 20.0).floor() as i64;
+    let pred_mul = if bfv { pred_fresh - (lt + 2.0 * ln + 13.0) as i64 } else { (2.0 * pred_fresh as f64 - level_bits - ln - 8.0) as i64 };
+    let pred_rl = pred_mul.min((level_bits - lt - 2.0 * ln - 2.0 * lp - 26.0) as i64) - 1;
+    let pred_mul2 = if bfv { pred_rl - (lt + 2.0 * ln + 2.0 * lp + 16.0) as i64 } else { ((pred_rl + pred_fresh) as f64 - level_bits - ln - 2.0 * lp - 10.0) as i64 };
+    let pred_rl2 = pred_mul2.min((level_bits - lt - 2.0 * ln - 2.0 * lp - 26.0) as i64) - 1;
+    let pred = match cnt { 2 => pred_fresh, 3 => pred_rl, 4 => pred_rl2, _ => -1 };
+    let claim = pred - 3 - ln as i64 - 1 >= 4;          // every line of this world claims or none does
+    let id = cfg.id();
+    let cls = |x: &str, kind: &str| format!("ewvp-{}-{}-P{}-k{}-{}", x, scheme_name(cfg.scheme), cnt, cfg.qs.len(), kind);
+    let mut common = [0u8; 64]; for c in common.chunks_mut(8) { c.copy_from_slice(&r.next().to_le_bytes()); }
+    let mut parties: Vec<Participant> = (0..cnt).map(|i| Participant::new(cnt, i, ctx.clone(), BlakeRNG::from_seed(PRNGSeed(common)))).collect();
+    let rand_pairs = |r: &mut Rng| { let mut v = all_pairs(cnt, false); shuffle(r, &mut v); v };
+
+    // ---- set-up: collective public key, relinearisation key, summed secret key (random delivery order; agreement is re-checked)
+    let gen_pk = |parties: &mut Vec<Participant>, order: &[(usize, usize)]| -> Vec<PublicKey> {
+        let mut protos: Vec<_> = parties.iter_mut().map(|p| p.generate_public_key()).collect();
+        let msgs: Vec<Vec<u8>> = protos.iter().map(|p| { let mut m = vec![]; p.send(&mut m).unwrap(); m }).collect();
+        for &(sd, rc) in order { protos[rc].receive(sd, &mut msgs[sd].as_slice()).unwrap(); }
+        protos.into_iter().map(|p| p.finish()).collect()
+    };
+    let order = rand_pairs(&mut r);
+    let pks = gen_pk(&mut parties, &order);
+    let rlks: Vec<RelinKeys> = {
+        let (o1, o2) = (rand_pairs(&mut r), rand_pairs(&mut r));
+        let mut protos: Vec<_> = parties.iter_mut().map(|p| p.generate_relin_keys()).collect();
+        let msgs: Vec<Vec<u8>> = protos.iter().map(|p| { let mut m = vec![]; p.send_step1(&mut m).unwrap(); m }).collect();
+        for &(sd, rc) in o1.iter() { protos[rc].receive_step1(sd, &mut msgs[sd].as_slice()).unwrap(); }
+        for p in protos.iter_mut() { p.step2(); }
+        let msgs2: Vec<Vec<u8>> = protos.iter().map(|p| { let mut m = vec![]; p.send_step2(&mut m).unwrap(); m }).collect();
+        for &(sd, rc) in o2.iter() { protos[rc].receive_step2(sd, &mut msgs2[sd].as_slice()).unwrap(); }
+        protos.into_iter().map(|p| p.finish()).collect()
+    };
+    let sk_sum: SecretKey = {
+        let order = rand_pairs(&mut r);
+        let mut protos: Vec<_> = parties.iter().map(|p| p.reveal_secret_key()).collect();
+        let msgs: Vec<Vec<u8>> = protos.iter().map(|p| { let mut m = vec![]; p.send(&mut m).unwrap(); m }).collect();
+        for &(sd, rc) in order.iter() { protos[rc].receive(sd, &mut msgs[sd].as_slice()).unwrap(); }
+        protos.into_iter().next().unwrap().finish()
+    };
+    let flat = |k: &RelinKeys| -> Vec<u64> { k.as_kswitch_keys().data()[0].iter().flat_map(|p| p.data().iter().cloned()).collect() };
+    let mut own = vec![0u64; key_qs.len() * n];
+    for p in parties.iter() { own = add_mod_rns(&own, p.secret_key().data(), n, &key_qs); }
+    let setup_ok = pks.iter().all(|k| k.data() == pks[0].data()) && rlks.iter().all(|k| flat(k) == flat(&rlks[0])) && sk_sum.data() == &own;
+    verdict(out, setup_ok, &format!("mp_ewvp_setup ewvp {}", id), &cls("setup", "keys"), "collective keys differ between parties or the revealed key is not the sum of the parties' keys");
+    if !setup_ok { return None; }
+    let (pk, rlk) = (pks[0].clone(), rlks[0].clone());
+    let sk_sum_c = centred_sk(&ctx, n, sk_sum.data());
+    let dec_sum = Decryptor::new(ctx.clone(), sk_sum.clone());
+    let be = BatchEncoder::new(ctx.clone());
+    let target_pk = s.keygen.create_public_key(false);
+    let ct_case = |sk: &[i64], ct: &Ciphertext| format!("{} {} {}", s.head(ct.parms_id()), fli(sk), s.ct_str(ct));
+
+    // ---- schedules
+    let inter = interleavings(cnt - 1);
+    let nperm = fact(cnt);
+    let ids: Vec<usize> = (0..cnt).collect();
+    let scheds: Vec<(Vec<usize>, usize, usize)> = if cnt <= 3 {
+        (0..(inter.len() * inter.len()).max(nperm as usize)).map(|i| (perm_nth(&ids, (i as u64) % nperm), (i / inter.len()) % inter.len(), i % inter.len())).collect()
+    } else {
+        (0..inter.len().max(nperm as usize)).map(|i| (perm_nth(&ids, (i as u64) % nperm), i % inter.len(), (i * 7 + 3) % inter.len())).collect()
+    };
+    let (mut runs, mut claims) = (0usize, 0usize);
+
+    for (ki, kname) in EW_KINDS.iter().enumerate() {
+        let xs = ew_vectors(&mut r, ki, cnt, n, t);
+        let xstr = xs.iter().map(|x| fl(x)).collect::<Vec<_>>().join("/");
+        let pad = |x: &[u64]| { let mut v = x.to_vec(); v.resize(n, 0); v };
+        let want_slots: Vec<u64> = (1..cnt).fold(vec![1u64; n], |acc, i| { let x = pad(&xs[i]); (0..n).map(|j| ((acc[j] as u128 * x[j] as u128) % t as u128) as u64).collect() });
+        let encs: Vec<Vec<u64>> = xs.iter().map(|x| pad(be.encode_new(x).data())).collect();
+        let want_poly = (2..cnt).fold(encs[1].clone(), |acc, i| shadow_mul(&acc, &encs[i], t));
+        // the two forms of the oracle (ring product of the encodings / slot-wise product) must describe the same plaintext
+        let dec_want = pad(&be.decode_new(&plain_of(&want_poly)));
+        verdict(out, dec_want == want_slots, &format!("mp_ewvp_oracle ewvp {} {} x={}", id, kname, xstr), "trivial-ewvp-oracle", "the ring product of the batch encodings does not decode to the slot-wise product (batch encoder is not multiplicative: C13)");
+        let arm_k = |sd: u64| arm(cfg.wseed ^ ((ki as u64 + 1) << 40) ^ (sd << 52));
+
+        let mut first: Option<(String, Ciphertext)> = None;
+        let mut distinct: Vec<Vec<u64>> = vec![];
+        let (mut bad_slots, mut bad_order, mut bad_hold, mut refused): (Vec<String>, Vec<String>, Vec<String>, Vec<String>) = (vec![], vec![], vec![], vec![]);
+        for (create, i1, i2) in scheds.iter() {
+            let tag = format!("create={}:s1={}:s2={}", create.iter().map(|c| c.to_string()).collect::<Vec<_>>().join("."), sched_str(&inter[*i1]), sched_str(&inter[*i2]));
+            arm_k(0);
+            let res = catch_unwind(AssertUnwindSafe(|| ew_run(&mut parties, &ctx, &pk, &rlk, &xs, create, &inter[*i1], &inter[*i2])));
+            runs += 1;
+            let (y, held) = match res { Ok(x) => x, Err(_) => { refused.push(format!("{} ({})", tag, crate::util::LAST_PANIC.with(|p| p.borrow().clone()).replace('\n', " "))); continue } };
+            if !held { bad_hold.push(tag.clone()); }
+            let plain = catch_unwind(AssertUnwindSafe(|| dec_sum.decrypt_new(&y)));
+            let (dstr, slots) = match &plain { Ok(p) => (pt_str(p), pad(&be.decode_new(p))), Err(_) => ("ERR".to_string(), vec![]) };
+            if !distinct.iter().any(|d| d.as_slice() == y.data().as_slice()) {
+                if distinct.len() < 2 {
+                    let lhs = format!("prog {} {} {}", ct_case(&sk_sum_c, &y), pred, fl(&trim(&want_poly)));
+                    if seen.insert(lhs.clone()) { out.raw(&format!("{} => {} # {}", lhs, dstr, cls("result", kname))); }
+                }
+                distinct.push(y.data().to_vec());
+            }
+            if claim && slots != want_slots { bad_slots.push(format!("{} got {}", tag, fl(&slots))); }
+            match &first { None => first = Some((dstr.clone(), y.clone())), Some((d0, _)) => if claim && &dstr != d0 { bad_order.push(tag.clone()); } }
+        }
+        let total = scheds.len();
+        verdict(out, refused.is_empty(), &format!("mp_ewvp_runs ewvp {} {} x={} schedules={}", id, kname, xstr, total), &cls("runs", kname),
+            &format!("{} schedules panicked on legal input; first: {}", refused.len(), refused.first().cloned().unwrap_or_default()));
+        verdict(out, bad_hold.is_empty(), &format!("mp_ewvp_hold ewvp {} {} x={} schedules={}", id, kname, xstr, total), &cls("hold", kname),
+            &format!("after step 2 an input party does not hold the aggregator's result in {} schedules; first: {}", bad_hold.len(), bad_hold.first().cloned().unwrap_or_default()));
+        if claim {
+            claims += 1;
+            verdict(out, bad_slots.is_empty(), &format!("mp_ewvp_slots ewvp {} {} x={} want={} pred={} schedules={}", id, kname, xstr, fl(&want_slots), pred, total), &cls("slots", kname),
+                &format!("the result does not decrypt to the slot-wise product of the input parties' vectors in {} schedules; first: {}", bad_slots.len(), bad_slots.first().cloned().unwrap_or_default()));
+            verdict(out, bad_order.is_empty(), &format!("mp_ewvp_order ewvp {} {} x={} schedules={} distinct_ct={}", id, kname, xstr, total, distinct.len()), &cls("order", kname),
+                &format!("{} schedules decrypt to a plaintext different from the first schedule's; first: {}", bad_order.len(), bad_order.first().cloned().unwrap_or_default()));
+        } else {
+            out.raw(&format!("!NOTE ewvp no exact-decryption claim for {} {} (predicted budget {})", id, kname, pred));
+        }
+
+        // ---- Out: the parties decrypt the result collectively / re-encrypt it for an outside receiver (as the library's test does)
+        if let Some((_, y0)) = first {
+            arm_k(1);
+            let order = perm_nth(&all_pairs(cnt, false), r.next() % fact(cnt * (cnt - 1)));
+            let pts: Vec<Option<Plaintext>> = {
+                let mut protos: Vec<_> = parties.iter().map(|p| p.decrypt(&y0)).collect();
+                let msgs: Vec<Vec<u8>> = protos.iter().map(|p| { let mut m = vec![]; p.send(&mut m).unwrap(); m }).collect();
+                for &(sd, rc) in order.iter() { protos[rc].receive(sd, &mut msgs[sd].as_slice()).unwrap(); }
+                finish_all!(protos, |p: DecryptionProtocol| p.finish())
+            };
+            let ok = pts.iter().all(|p| p.as_ref().map(|p| pad(&be.decode_new(p)) == want_slots).unwrap_or(false));
+            if claim { verdict(out, ok, &format!("mp_ewvp_out_decrypt ewvp {} {} x={} want={}", id, kname, xstr, fl(&want_slots)), &cls("out-decrypt", kname), "collective decryption of the result is not the slot-wise product for every party"); }
+            if let Some(Some(p0)) = pts.get(0) {
+                let lhs = format!("prog {} {} {}", ct_case(&sk_sum_c, &y0), pred - 3, fl(&trim(&want_poly)));
+                if seen.insert(lhs.clone()) { out.raw(&format!("{} => {} # {}", lhs, pt_str(p0), cls("collective-decrypt", kname))); }
+            }
+            let order = perm_nth(&all_pairs(cnt, false), r.next() % fact(cnt * (cnt - 1)));
+            let cts: Vec<Option<Ciphertext>> = {
+                let mut protos: Vec<_> = parties.iter().map(|p| p.public_key_switch(&y0, &target_pk)).collect();
+                let msgs: Vec<Vec<u8>> = protos.iter().map(|p| { let mut m = vec![]; p.send(&mut m).unwrap(); m }).collect();
+                for &(sd, rc) in order.iter() { protos[rc].receive(sd, &mut msgs[sd].as_slice()).unwrap(); }
+                finish_all!(protos, |p: PublicKeySwitchProtocol| p.finish())
+            };
+            let ok = cts.iter().all(|c| c.as_ref().map(|c| catch_unwind(AssertUnwindSafe(|| pad(&be.decode_new(&s.decryptor.decrypt_new(c))))).map(|v| v == want_slots).unwrap_or(false)).unwrap_or(false));
+            if claim { verdict(out, ok, &format!("mp_ewvp_out_pks ewvp {} {} x={} want={}", id, kname, xstr, fl(&want_slots)), &cls("out-pks", kname), "the result re-encrypted for the receiver does not decrypt to the slot-wise product for every party"); }
+            if let Some(Some(c0)) = cts.get(0) {
+                let lhs = format!("prog {} {} {}", s.ct_case(c0), pred - 3 - ln as i64 - 1, fl(&trim(&want_poly)));
+                if seen.insert(lhs.clone()) { out.raw(&format!("{} => {} # {}", lhs, guard(|| s.dec_str(c0)), cls("public-key-switch", kname))); }
+            }
+        }
+    }
+
+    // ---- incomplete step 1 (observation only: the property's refusal clause is stated for the finish of the revelation protocols)
+    for skip in 1..cnt {
+        arm(cfg.wseed ^ 0xDEAD);
+        let xs = ew_vectors(&mut r, 5, cnt, n, t);
+        // step 1 without the message of `skip`, then the aggregator's step 2 alone
+        let res = catch_unwind(AssertUnwindSafe(|| {
+            let mut protos: Vec<ElementWiseVectorProductProtocol> = parties.iter_mut().zip(xs.iter()).map(|(p, x)| p.element_wise_vector_product(ctx.clone(), pk.clone(), x)).collect();
+            for i in 1..cnt { if i != skip { let mut m = vec![]; protos[i].send_step1(&mut m).unwrap(); protos[0].receive_step1(i, &m).unwrap(); } }
+            protos[0].step2(rlk.clone())
+        }));
+        let what = match res { Ok(y) => format!("step2 did NOT refuse: it returned a ciphertext of size {} ({} words)", y.size(), y.data().len()),
+            Err(_) => format!("step2 refused ({})", crate::util::LAST_PANIC.with(|p| p.borrow().clone()).replace('\n', " ")) };
+        out.raw(&format!("!NOTE ewvp incomplete {} message of party {} never delivered: {}", id, skip, what));
+    }
+
+    // ---- the common tape afterwards: same state in every party; a fresh collective public key still agrees
+    arm(cfg.wseed ^ 0x7A9E);
+    let draws: Vec<u64> = parties.iter().map(|p| p.borrow_common_rng().next_u64()).collect();
+    verdict(out, draws.iter().all(|&d| d == draws[0]), &format!("mp_ewvp_tape draw {}", id), &cls("tape", "draw"), &format!("the parties' common tapes are in different states after the protocol: next words {:?}", draws));
+    let order = rand_pairs(&mut r);
+    let pks2 = gen_pk(&mut parties, &order);
+    verdict(out, pks2.iter().all(|k| k.data() == pks2[0].data()) && pks2[0].data() != pk.data(), &format!("mp_ewvp_tape pk {}", id), &cls("tape", "pk"),
+        "a collective public key generated after the protocol differs between parties (or repeats the first one)");
+    Some((runs, claims, EW_KINDS.len()))
+}
+
+fn ewvp_all(out: &mut Out, thorough: bool, seed: u64, seen: &mut HashSet<String>) {
+    let mut r = Rng::new(seed ^ 0xE1E17EC7);
+    let (mut worlds, mut runs, mut claims, mut kinds) = (0usize, 0usize, 0usize, 0usize);
+    for parties in 2..=4usize {
+        for &scheme in [SchemeType::BFV, SchemeType::BGV].iter() {
+            for rep in 0..(if thorough { 4 } else { 2 }) {
+                let k = match parties { 2 => 2 + rep % 2, 3 => 3 + rep % 2, _ => 4 };
+                let cfg = match (0..8).find_map(|_| ew_cfg(&mut r, scheme, parties, k)) { Some(c) => c, None => continue };
+                out.raw(&format!("!NOTE ewvp world {}", cfg.spec()));
+                if let Some((a, b, c)) = ewvp_world(out, &cfg, seen) { worlds += 1; runs += a; claims += b; kinds += c; }
+            }
+        }
+    }
+    // CKKS: the protocol encodes with the BatchEncoder, which does not accept the scheme
+    if let Some(cfg) = (0..8).find_map(|_| pick_cfg(&mut r, SchemeType::CKKS, 2, 3, thorough, false)) { if let Some(s) = make(cfg.scheme, cfg.n, &cfg.qs, cfg.t, true, None) {
+        arm(cfg.wseed);
+        let res = catch_unwind(AssertUnwindSafe(|| {
+            let mut p = Participant::new(2, 1, s.ctx.clone(), BlakeRNG::from_seed(PRNGSeed([3u8; 64])));
+            let pk = s.keygen.create_public_key(false);
+            let proto = p.element_wise_vector_product(s.ctx.clone(), pk, &[1, 2, 3]);
+            let mut m = vec![]; proto.send_step1(&mut m).unwrap(); m.len()
+        }));
+        hk::clear_entropy_override();
+        out.raw(&format!("!NOTE ewvp ckks {}: {}", cfg.spec(), match res { Ok(l) => format!("accepted (message of {} bytes)", l), Err(_) => format!("refused ({})", crate::util::LAST_PANIC.with(|p| p.borrow().clone()).replace('\n', " ")) }));
+    } }
+    out.raw(&format!("!NOTE ewvp worlds {} protocol runs {} vector sets {} with exact-decryption claim {}", worlds, runs, kinds, claims));
+}
+
 pub fn run(out: &mut Out, thorough: bool, seed: u64, extra: &[String]) {
     let mut seen: HashSet<String> = HashSet::new();
     // replay of one recorded case: `--case <line>`: a world is identified by the `world <cfg> <plan>` note; case lines replay themselves
@@ -668,6 +976,7 @@ pub fn run(out: &mut Out, thorough: bool, seed: u64, extra: &[String]) {
         return;
     }
     if extra.len() >= 2 && extra[0] == "--case" { replay(out, &extra[1]); return; }
+    if extra.len() >= 2 && extra[0] == "--ewvp-world" { if let Some(cfg) = Cfg::parse(&extra[1]) { ewvp_world(out, &cfg, &mut seen); } return; }
     let mut r = Rng::new(seed);
     let schemes = [SchemeType::BFV, SchemeType::BGV, SchemeType::CKKS];
     let max_p = if thorough { 6 } else { 4 };
@@ -713,4 +1022,5 @@ pub fn run(out: &mut Out, thorough: bool, seed: u64, extra: &[String]) {
         }
     }
     out.raw(&format!("!NOTE worlds {}", worlds));
+    ewvp_all(out, thorough, seed, &mut seen);
 }
